@@ -531,4 +531,267 @@ theorem nearestDecB_complete (P : ℕ) (x : ℚ) (y : Dec) (h : IsNearestDec P x
   simp only [Bool.and_eq_true, decide_eq_true_eq]
   exact ⟨⟨h.1, h.2 _ hup⟩, h.2 _ hdn⟩
 
+/-! ### the decision procedure for "nearest finite binary64 value" is sound -/
+
+/-- No binary64 value lies strictly between `D·2^j` and `(D+1)·2^j` when `D ≥ 2^52` or `j` is the
+minimal exponent. -/
+theorem no_between_bin (D : ℕ) (j : ℤ) (hD : 2 ^ 52 ≤ D ∨ j = -1074) (m' : ℕ) (e' : ℤ)
+    (hm' : m' < 2 ^ 53) (he' : -1074 ≤ e')
+    (h1 : bval D j < bval m' e') (h2 : bval m' e' < bval (D + 1) j) : False := by
+  unfold bval at h1 h2
+  have h20 : (2 : ℚ) ≠ 0 := by norm_num
+  rcases le_or_gt j e' with hjk | hjk
+  · obtain ⟨s, hs⟩ := Int.eq_ofNat_of_zero_le (show 0 ≤ e' - j by omega)
+    have hk' : e' = j + s := by omega
+    have hu : (0 : ℚ) < (2 : ℚ) ^ j := zpow_pos (by norm_num) _
+    rw [hk', zpow_add₀ h20, zpow_natCast] at h1 h2
+    have e : (m' : ℚ) * ((2 : ℚ) ^ j * 2 ^ s) = ((m' * 2 ^ s : ℕ) : ℚ) * (2 : ℚ) ^ j := by
+      push_cast; ring
+    rw [e] at h1 h2
+    have a1 := lt_of_mul_lt_mul_right h1 hu.le
+    have a2 := lt_of_mul_lt_mul_right h2 hu.le
+    have b1 : D < m' * 2 ^ s := by exact_mod_cast a1
+    have b2 : m' * 2 ^ s < D + 1 := by exact_mod_cast a2
+    omega
+  · obtain ⟨s, hs⟩ := Int.eq_ofNat_of_zero_le (show 0 ≤ j - e' - 1 by omega)
+    have hj : j = e' + 1 + s := by omega
+    have hu : (0 : ℚ) < (2 : ℚ) ^ e' := zpow_pos (by norm_num) _
+    rw [hj, zpow_add₀ h20, zpow_add₀ h20, zpow_natCast] at h1
+    have e : (D : ℚ) * ((2 : ℚ) ^ e' * 2 ^ (1 : ℤ) * 2 ^ s) = ((D * 2 * 2 ^ s : ℕ) : ℚ) * (2 : ℚ) ^ e' := by
+      push_cast; ring
+    rw [e] at h1
+    have a1 := lt_of_mul_lt_mul_right h1 hu.le
+    have b1 : D * 2 * 2 ^ s < m' := by exact_mod_cast a1
+    have hs1 : 1 ≤ 2 ^ s := Nat.one_le_two_pow
+    have hD' : 2 ^ 52 ≤ D := by rcases hD with h | h <;> omega
+    nlinarith
+
+theorem bval_lt_succ (D : ℕ) (j : ℤ) : bval D j < bval (D + 1) j := by
+  unfold bval
+  have hu : (0 : ℚ) < (2 : ℚ) ^ j := zpow_pos (by norm_num) _
+  push_cast; nlinarith
+
+theorem bval_le_max {m : ℕ} {e : ℤ} (h : BOK m e) : bval m e ≤ bval (2 ^ 53 - 1) 971 := by
+  obtain ⟨h1, h2, h3⟩ := h
+  have hmle : (m : ℚ) ≤ ((2 ^ 53 - 1 : ℕ) : ℚ) := by
+    have : m ≤ 2 ^ 53 - 1 := by rcases h3 with h | h <;> omega
+    exact_mod_cast this
+  have hele : (2 : ℚ) ^ e ≤ (2 : ℚ) ^ (971 : ℤ) := zpow_le_zpow_right₀ (by norm_num) h2
+  unfold bval
+  exact mul_le_mul hmle hele (zpow_pos (by norm_num) _).le (by positivity)
+
+theorem bval_ge_min {m : ℕ} {e : ℤ} (h : BOK m e) : bval 1 (-1074) ≤ bval m e := by
+  obtain ⟨h1, h2, h3⟩ := h
+  have hmle : ((1 : ℕ) : ℚ) ≤ (m : ℚ) := by
+    have : 1 ≤ m := by rcases h3 with h | h <;> omega
+    exact_mod_cast this
+  have hele : (2 : ℚ) ^ (-1074 : ℤ) ≤ (2 : ℚ) ^ e := zpow_le_zpow_right₀ (by norm_num) h1
+  unfold bval
+  exact mul_le_mul hmle hele (zpow_pos (by norm_num) _).le (by positivity)
+
+theorem B64.up_props (x : B64) (hn : x.neg = false) (h : x.WF) :
+    (∀ u, x.up = some u → u.toRat = bval (x.m + 1) x.e) ∧
+    (x.up = none → x.m = 2 ^ 53 - 1 ∧ x.e = 971) := by
+  obtain ⟨h1, h2, h3⟩ := h
+  unfold B64.up
+  split
+  · refine ⟨fun u hu => ?_, fun hc => by cases hc⟩
+    cases hu
+    rw [B64.toRat_eq]; simp [hn]
+  · rename_i hlt
+    have hm : x.m + 1 = 2 ^ 53 := by rcases h3 with h | h <;> omega
+    split
+    · refine ⟨fun u hu => ?_, fun hc => by cases hc⟩
+      cases hu
+      rw [B64.toRat_eq]
+      simp only [hn, Bool.false_eq_true, if_false, bval, hm]
+      rw [zpow_add₀ (by norm_num : (2 : ℚ) ≠ 0)]
+      push_cast; ring
+    · rename_i hge
+      exact ⟨fun u hu => (by cases hu), fun _ => ⟨by omega, by omega⟩⟩
+
+theorem B64.down_props (x : B64) (hn : x.neg = false) (h : x.WF) :
+    (∀ d, x.down = some d → ∃ (D : ℕ) (j : ℤ), d.toRat = bval D j ∧ bval (D + 1) j = bval x.m x.e ∧
+        (2 ^ 52 ≤ D ∨ j = -1074) ∧ 0 < bval D j) ∧
+    (x.down = none → x.m = 1 ∧ x.e = -1074) := by
+  obtain ⟨h1, h2, h3⟩ := h
+  have hpos : ∀ (D : ℕ) (j : ℤ), 1 ≤ D → 0 < bval D j := by
+    intro D j hD
+    unfold bval
+    have : (0 : ℚ) < D := by exact_mod_cast hD
+    exact mul_pos this (zpow_pos (by norm_num) _)
+  unfold B64.down
+  split
+  · rename_i he
+    split
+    · rename_i hm
+      refine ⟨fun d hd => ?_, fun hc => by cases hc⟩
+      cases hd
+      refine ⟨x.m - 1, x.e, ?_, ?_, Or.inr he, hpos _ _ (by omega)⟩
+      · rw [B64.toRat_eq]; simp [hn]
+      · have : x.m - 1 + 1 = x.m := by omega
+        rw [this]
+    · rename_i hm
+      exact ⟨fun d hd => (by cases hd), fun _ => ⟨by rcases h3 with h | h <;> omega, he⟩⟩
+  · rename_i he
+    have hm2 : 2 ^ 52 ≤ x.m := by rcases h3 with h | h <;> omega
+    split
+    · rename_i hm
+      refine ⟨fun d hd => ?_, fun hc => by cases hc⟩
+      cases hd
+      refine ⟨x.m - 1, x.e, ?_, ?_, Or.inl (by omega), hpos _ _ (by omega)⟩
+      · rw [B64.toRat_eq]; simp [hn]
+      · have : x.m - 1 + 1 = x.m := by omega
+        rw [this]
+    · rename_i hm
+      have hm3 : x.m = 2 ^ 52 := by omega
+      refine ⟨fun d hd => ?_, fun hc => by cases hc⟩
+      cases hd
+      refine ⟨2 ^ 53 - 1, x.e - 1, ?_, ?_, Or.inl (by norm_num), hpos _ _ (by norm_num)⟩
+      · rw [B64.toRat_eq]; simp [hn]
+      · rw [hm3]
+        unfold bval
+        rw [sub_eq_add_neg, zpow_add₀ (by norm_num : (2 : ℚ) ≠ 0)]
+        norm_num
+        ring
+
+/-- For positive `y`: a positive binary64 value at least as close to `y` as its two neighbours
+(zero below the least subnormal, `2^1024` above the largest finite value) is a nearest finite
+binary64 value of `y` among zero and all finite nonzero ones. -/
+theorem nearestBinB_sound_pos (y : ℚ) (hy : 0 < y) (x : B64) (hn : x.neg = false)
+    (h : nearestBinB y x = true) : IsNearestBin y x := by
+  unfold nearestBinB at h
+  simp only [Bool.and_eq_true, decide_eq_true_eq] at h
+  obtain ⟨⟨hwf, hup⟩, hdn⟩ := h
+  obtain ⟨up1, up2⟩ := B64.up_props x hn hwf
+  obtain ⟨dn1, dn2⟩ := B64.down_props x hn hwf
+  have hv : x.toRat = bval x.m x.e := by rw [B64.toRat_eq]; simp [hn]
+  have hvpos : 0 < bval x.m x.e := bval_pos hwf
+  -- positive competitors
+  have hposz : ∀ (m' : ℕ) (e' : ℤ), BOK m' e' → |y - bval x.m x.e| ≤ |y - bval m' e'| := by
+    intro m' e' hz
+    have hm' : m' < 2 ^ 53 := by rcases hz.2.2 with h | h <;> omega
+    rcases lt_trichotomy (bval m' e') (bval x.m x.e) with hlt | heq | hgt
+    · cases hd : x.down with
+      | none =>
+        obtain ⟨e1, e2⟩ := dn2 hd
+        have := bval_ge_min hz
+        rw [e1, e2] at hlt
+        exact absurd hlt (not_lt.2 this)
+      | some d =>
+        obtain ⟨D, j, hD1, hD2, hD3, hD4⟩ := dn1 d hd
+        rw [hd] at hdn
+        simp only [decide_eq_true_eq, dist_eq, hD1, hv] at hdn
+        have hlt2 : bval D j < bval x.m x.e := by rw [← hD2]; exact bval_lt_succ D j
+        refine abs_far_left hlt2 ?_ hdn
+        by_contra hc
+        exact no_between_bin D j hD3 m' e' hm' hz.1 (not_le.1 hc) (by rw [hD2]; exact hlt)
+    · rw [heq]
+    · cases hu : x.up with
+      | none =>
+        obtain ⟨e1, e2⟩ := up2 hu
+        have := bval_le_max hz
+        rw [e1, e2] at hgt
+        exact absurd hgt (not_lt.2 this)
+      | some u =>
+        rw [hu] at hup
+        simp only [decide_eq_true_eq, dist_eq, up1 u hu, hv] at hup
+        refine abs_far_right (bval_lt_succ x.m x.e) ?_ hup
+        by_contra hc
+        have hD : 2 ^ 52 ≤ x.m ∨ x.e = -1074 := by
+          rcases hwf.2.2 with h | h
+          · exact Or.inl h.1
+          · exact Or.inr h.2.2
+        exact no_between_bin x.m x.e hD m' e' hm' hz.1 hgt (not_le.1 hc)
+  refine ⟨hwf, ?_, ?_⟩
+  · rw [dist_eq, dist_eq, hv]
+    cases hd : x.down with
+    | none =>
+      rw [hd] at hdn
+      simpa only [decide_eq_true_eq, dist_eq, hv] using hdn
+    | some d =>
+      obtain ⟨D, j, hD1, hD2, hD3, hD4⟩ := dn1 d hd
+      rw [hd] at hdn
+      simp only [decide_eq_true_eq, dist_eq, hD1, hv] at hdn
+      have hlt2 : bval D j < bval x.m x.e := by rw [← hD2]; exact bval_lt_succ D j
+      exact abs_far_left hlt2 hD4.le hdn
+  · intro z hz
+    rw [dist_eq, dist_eq, hv, B64.toRat_eq]
+    cases hzn : z.neg
+    · simp only [Bool.false_eq_true, if_false]
+      exact hposz z.m z.e hz
+    · simp only [if_true]
+      have hw : 0 < bval z.m z.e := bval_pos hz
+      refine le_trans (hposz z.m z.e hz) ?_
+      rw [sub_neg_eq_add, abs_of_pos (by linarith : 0 < y + bval z.m z.e)]
+      exact abs_le.2 ⟨by linarith, by linarith⟩
+
+theorem B64.negate_toRat (x : B64) : x.negate.toRat = -x.toRat := by
+  rw [B64.toRat_eq, B64.toRat_eq]
+  cases hn : x.neg <;> simp [B64.negate, hn]
+
+theorem B64.negate_negate (x : B64) : x.negate.negate = x := by
+  cases x; simp [B64.negate]
+
+theorem IsNearestBin.neg {y : ℚ} {x : B64} (h : IsNearestBin y x) : IsNearestBin (-y) x.negate := by
+  refine ⟨h.1, ?_, fun z hz => ?_⟩
+  · have := h.2.1
+    rw [B64.negate_toRat, dist_neg]
+    have e := dist_neg y 0
+    rw [neg_zero] at e
+    rw [e]; exact this
+  · have := h.2.2 z.negate hz
+    rw [B64.negate_toRat] at this
+    rw [B64.negate_toRat, dist_neg]
+    have e := dist_neg y (-z.toRat)
+    rw [neg_neg] at e
+    rw [e]; exact this
+
+theorem nearestBinB_neg (y : ℚ) (x : B64) : nearestBinB (-y) x.negate = nearestBinB y x := by
+  have hup : x.negate.up = x.up.map B64.negate := by
+    unfold B64.up B64.negate; split
+    · simp
+    · split <;> simp
+  have hdn : x.negate.down = x.down.map B64.negate := by
+    unfold B64.down B64.negate; split
+    · split <;> simp
+    · split <;> simp
+  have hwf : x.negate.WF ↔ x.WF := Iff.rfl
+  have hA : ∀ u : B64, dist (-y) x.negate.toRat ≤ dist (-y) u.negate.toRat ↔
+      dist y x.toRat ≤ dist y u.toRat := by
+    intro u; rw [B64.negate_toRat, B64.negate_toRat, dist_neg, dist_neg]
+  have hB : dist (-y) x.negate.toRat ≤ dist (-y) 0 ↔ dist y x.toRat ≤ dist y 0 := by
+    have e := dist_neg y 0
+    rw [neg_zero] at e
+    rw [B64.negate_toRat, dist_neg, e]
+  have hC : dist (-y) x.negate.toRat ≤ dist (-y) (if x.negate.neg then -(scale 2 1024) else scale 2 1024) ↔
+      dist y x.toRat ≤ dist y (if x.neg then -(scale 2 1024) else scale 2 1024) := by
+    rw [B64.negate_toRat, dist_neg]
+    have e1 := dist_neg y (scale 2 1024)
+    have e2 := dist_neg y (-(scale 2 1024))
+    rw [neg_neg] at e2
+    cases hxn : x.neg
+    · have : x.negate.neg = true := by simp [B64.negate, hxn]
+      simp only [this, if_true, Bool.false_eq_true, if_false, e1]
+    · have : x.negate.neg = false := by simp [B64.negate, hxn]
+      simp only [this, if_true, Bool.false_eq_true, if_false, e2]
+  unfold nearestBinB
+  rw [hup, hdn]
+  cases hu : x.up <;> cases hd : x.down <;>
+    simp only [Option.map_some, Option.map_none, hA, hB, hC, hwf]
+
+/-- The decision procedure is sound whenever `y ≠ 0` and the binary64 value carries the sign of `y`. -/
+theorem nearestBinB_sound (y : ℚ) (x : B64) (hs : (0 < y ∧ x.neg = false) ∨ (y < 0 ∧ x.neg = true))
+    (h : nearestBinB y x = true) : IsNearestBin y x := by
+  rcases hs with ⟨hy, hn⟩ | ⟨hy, hn⟩
+  · exact nearestBinB_sound_pos y hy x hn h
+  · have h' : nearestBinB (-y) x.negate = true := by rw [nearestBinB_neg]; exact h
+    have := (nearestBinB_sound_pos (-y) (by linarith) x.negate (by simp [B64.negate, hn]) h').neg
+    rwa [neg_neg, B64.negate_negate] at this
+
+/-- a three-valued world `+0.0`, `-0.0`, `0.1` (and its three tokens) for the non-vacuity example of
+`C16_digits_discharges_hypothesis` -/
+inductive DigitsDemo | pz | nz | tenth
+deriving DecidableEq
+
 end Pyttb.Digits
